@@ -136,6 +136,17 @@ def schema_targets(pdf, d):
     out["sk_add_suffix_empty_sel"] = lambda: d.add_suffix("")[["a"]]
     out["sk_add_prefix_sel"] = lambda: d.add_prefix("p_")[["p_a", "p_rid"]]
     out["sk_rename_swap_filter"] = lambda: (lambda e: e[e.a > 3.0][["a", "b"]])(d.rename(columns={"a": "b", "b": "a"}))
+    # row counts of two same-size partition selections of one source, answered from metadata, in one query
+    def _len_two(series):
+        from dask_expr import new_collection
+        from dask_expr._reductions import Len
+
+        u = dx.from_pandas(pdf.iloc[:37], chunksize=5)  # 7 partitions of 5 rows and one of 2
+        x = u.b if series else u
+        return (new_collection(Len(x.partitions[[0]].expr)) * 100 + new_collection(Len(x.partitions[[7]].expr))) * 100 + new_collection(Len(x.partitions[[3, 7]].expr))
+
+    out["sk_len_two_selections_series"] = lambda: _len_two(True)
+    out["sk_len_two_selections_frame"] = lambda: _len_two(False)
     out["sk_sort_ignore_index"] = lambda: d.set_index("b").sort_values("c", ignore_index=True)
     out["sk_sort_ignore_index_str"] = lambda: d.set_index("s").sort_values("rid", ignore_index=True)
     out["sk_value_counts"] = lambda: d.a.value_counts()
